@@ -267,6 +267,28 @@ CHECKS["C17"] = {
   "note": "partial: the createEnv path on which an argument raises leaks the callee context (known finding, witnessed); program-level no-leak is a correspondence result, not a theorem; temp-pool slot reuse is bounded, not modelled; two further recorded defects (null dereference after move; use-after-free when a clone outlives its origin).",
   "technique": "invariant over operation sequences (Lean 4) + bounded-exhaustive and random model-based testing with an instrumented plugin under AddressSanitizer"}
 
+CHECKS["C11"] = dict(
+    category="proof",
+    text=("Lean 4 model of what one parse does to the context, as a machine over events (registerSymbol with its backup list, "
+          "FOR/FORALL/IF/WHILE/BEGIN clause entry and both exits with the safety/lock flags and the exec stack, createOrReplace/"
+          "rollback of function declarations, the catch-block unwinding, parsingEnd's reverse-order restore loop); theorems "
+          "(BlocV.Proofs.C11) for EVERY event sequence, EVERY context, EVERY structure hash: parsingEnd_restores, "
+          "clause_flags_restored, reject_restores_symbols (names, types, decls, flags, exec depth, parsing flag of everything "
+          "pre-existing), accept_keeps_flags, reject_restores_functions_partial (texts that declare no pre-existing (name, arity)), "
+          "context_usable_after_reject; the full function clause is FALSE on this tree: negation proved at three witnesses, and the "
+          "symbol clause needs 'tuple symbols carry their decl' (negation proved) — three recorded known findings. Tied to /repo by "
+          "snapshotting the context at every reader call of Parser::parse / parseStatement on one-token-per-line texts: every "
+          "observed snapshot must be explained as a model event, the context after a rejected text must equal the model's and, "
+          "outside the finding regions, the context before (values, flags, function identities included); texts truncated and "
+          "corrupted (drop/duplicate/replace) at EVERY token position through library, C API and interactive path; probe programs "
+          "in the disturbed context vs an undisturbed twin."),
+    design_ref="DESIGN.md §6 C11, notes/NOTES-C11.md",
+    note=("Trusted: Lean kernel; the event vocabulary and the guards of clause entry come from reading the five parse_clause "
+          "functions, tied only by the trace correspondence; effects between the last reader call and the error are seen only "
+          "through the final dump (one trailing registration is reconstructed); function identity = Functor address within a case."),
+    technique="proof + trace-refinement correspondence (model-explained snapshots) + differential twin runs",
+)
+
 NOT_YET = {}
 for _k, _c in CHECKS.items():
     _c.setdefault("design_ref", "DESIGN.md §6 %s" % _k)
